@@ -28,7 +28,7 @@ func (f *fakeUp) Dial() (net.Conn, error) { return nil, fmt.Errorf("fake") }
 func (f *fakeUp) Forward() bool           { return false }
 func (f *fakeUp) String() string          { return fmt.Sprintf("%s#%d", f.ep, f.id) }
 
-var c15Eps = []string{"e0", "e1", "e10"}
+var c15Eps = []string{"e0", "e1", "E1", "e10"} // near-miss names: a prefix and a case variant
 
 type c15Model struct {
 	members map[string][]*fakeUp // registered, in registration order
@@ -62,7 +62,7 @@ func checkWindow(c *vlib.Case, ep string, members, sel []*fakeUp) {
 }
 
 func TestC15Select(t *testing.T) {
-	vlib.SetRule("C15", "TestC15Select", "rapid state machine of add/remove(also repeated, unknown)/select over 3 endpoints on the real LoadBalancedManager with a generated remote routing table; model = ordered member lists; non-trivial = a removal at or before the round-robin cursor (or of the only/last member) followed by >= n selections of that endpoint")
+	vlib.SetRule("C15", "TestC15Select", "rapid state machine of add/remove(also repeated, unknown)/select over 4 endpoints (incl. a prefix and a case variant of another) on the real LoadBalancedManager with a generated remote routing table; model = ordered member lists; non-trivial = a removal at or before the round-robin cursor (or of the only/last member) followed by >= n selections of that endpoint")
 	vlib.Run(t, "C15", func(c *vlib.Case) {
 		cs := cluster.NewState(&cluster.Node{ID: "local", ProxyAddr: "p", AdminAddr: "a"}, log.NewNopLogger())
 		mgr := upstream.NewLoadBalancedManager(cs, nil)
